@@ -106,6 +106,13 @@ func init() {
 				return true
 			}
 			if id, ok := r.(*ast.Ident); ok {
+				// the selected writer already ran on this path and its error was returned by the test
+				// in front (`if err := fn(…); err != nil { return err }; return nil`)
+				if c33WriterRanBefore(info, stack, rs, fnParam) {
+					nViaFn++
+					c.OK("R33f", key, rs.Pos(), "returns %s after the selected writer ran and its error was checked", id.Name)
+					return true
+				}
 				// `v := fn(…)` / `v = fn(…)` immediately followed by `return v`
 				if call := c33PrevAssignedCall(info, stack, rs, id); call != nil {
 					if fid, ok := unparen(call.Fun).(*ast.Ident); ok && info.ObjectOf(fid) == fnParam {
@@ -181,4 +188,123 @@ func c33PrevAssignedCall(info *types.Info, stack []ast.Node, rs *ast.ReturnStmt,
 		return call
 	}
 	return nil
+}
+
+// c33ErrCheckReturns: ifs is `if <v> != nil { return <v> }` (either operand order, nothing else in the body).
+func c33ErrCheckReturns(info *types.Info, ifs *ast.IfStmt, v types.Object) bool {
+	if ifs.Else != nil || len(ifs.Body.List) != 1 {
+		return false
+	}
+	be, ok := unparen(ifs.Cond).(*ast.BinaryExpr)
+	if !ok || be.Op != token.NEQ {
+		return false
+	}
+	x, y := unparen(be.X), unparen(be.Y)
+	if isNilIdent(info, x) {
+		x, y = y, x
+	}
+	xi, ok := x.(*ast.Ident)
+	if !ok || !isNilIdent(info, y) || info.ObjectOf(xi) != v {
+		return false
+	}
+	rs, ok := ifs.Body.List[0].(*ast.ReturnStmt)
+	if !ok || len(rs.Results) != 1 {
+		return false
+	}
+	ri, ok := unparen(rs.Results[0]).(*ast.Ident)
+	return ok && info.ObjectOf(ri) == v
+}
+
+// c33CheckedAndReturned: the call's error is stored in a local that is tested and returned at once —
+// `if err := call; err != nil { return err }`, or `err = call` followed by `if err != nil { return err }`.
+func c33CheckedAndReturned(info *types.Info, st []ast.Node, call *ast.CallExpr) bool {
+	if len(st) < 3 {
+		return false
+	}
+	as, ok := st[len(st)-2].(*ast.AssignStmt)
+	if !ok || len(as.Lhs) != 1 || len(as.Rhs) != 1 || unparen(as.Rhs[0]) != ast.Expr(call) {
+		return false
+	}
+	id, ok := as.Lhs[0].(*ast.Ident)
+	if !ok {
+		return false
+	}
+	v := info.ObjectOf(id)
+	switch par := st[len(st)-3].(type) {
+	case *ast.IfStmt:
+		return par.Init == ast.Stmt(as) && c33ErrCheckReturns(info, par, v)
+	case *ast.BlockStmt:
+		for i, s := range par.List {
+			if s == ast.Stmt(as) && i+1 < len(par.List) {
+				if ifs, ok := par.List[i+1].(*ast.IfStmt); ok && ifs.Init == nil {
+					return c33ErrCheckReturns(info, ifs, v)
+				}
+			}
+		}
+	case *ast.CaseClause:
+		for i, s := range par.Body {
+			if s == ast.Stmt(as) && i+1 < len(par.Body) {
+				if ifs, ok := par.Body[i+1].(*ast.IfStmt); ok && ifs.Init == nil {
+					return c33ErrCheckReturns(info, ifs, v)
+				}
+			}
+		}
+	}
+	return false
+}
+
+// c33WriterRanBefore: rs is `return nil` (or a return of the error local just tested) and, in the same
+// statement list directly in front of it, the selected writer was called and its error checked and returned.
+func c33WriterRanBefore(info *types.Info, stack []ast.Node, rs *ast.ReturnStmt, fnParam types.Object) bool {
+	if len(stack) < 2 || len(rs.Results) != 1 {
+		return false
+	}
+	var list []ast.Stmt
+	switch b := stack[len(stack)-2].(type) {
+	case *ast.BlockStmt:
+		list = b.List
+	case *ast.CaseClause:
+		list = b.Body
+	}
+	idx := -1
+	for i, s := range list {
+		if s == ast.Stmt(rs) {
+			idx = i
+		}
+	}
+	if idx < 1 {
+		return false
+	}
+	ifs, ok := list[idx-1].(*ast.IfStmt)
+	if !ok {
+		return false
+	}
+	var as *ast.AssignStmt
+	if ifs.Init != nil {
+		as, _ = ifs.Init.(*ast.AssignStmt)
+	} else if idx >= 2 {
+		as, _ = list[idx-2].(*ast.AssignStmt)
+	}
+	if as == nil || len(as.Lhs) != 1 || len(as.Rhs) != 1 {
+		return false
+	}
+	call, ok := unparen(as.Rhs[0]).(*ast.CallExpr)
+	if !ok {
+		return false
+	}
+	fid, ok := unparen(call.Fun).(*ast.Ident)
+	if !ok || info.ObjectOf(fid) != fnParam {
+		return false
+	}
+	lid, ok := as.Lhs[0].(*ast.Ident)
+	if !ok || !c33ErrCheckReturns(info, ifs, info.ObjectOf(lid)) {
+		return false
+	}
+	// what is returned: nil, or that same (now known nil) error local
+	r := unparen(rs.Results[0])
+	if isNilIdent(info, r) {
+		return true
+	}
+	rid, ok := r.(*ast.Ident)
+	return ok && ifs.Init == nil && info.ObjectOf(rid) == info.ObjectOf(lid)
 }
